@@ -60,13 +60,16 @@ CHECKS = {
             "structural rules (reversed product of inverses, factor-wise and NOT reversed for Kronecker/BlockDiag with multiplicities kept, reciprocal payloads, argsort permutation, "
             "adjoint under the Unitary cond, triangular solve), forwarding of the algorithm argument, the lazy iterative inverse calling alg(A, X), and that Auto is exhaustive and "
             "chooses PSD-only algorithms only where its guard implies PSD. For the CG path, the HOMOG analysis of C12 decides that the stopping threshold is homogeneous in b "
-            "(the requested tolerance is relative) and the solution linear in b.",
+            "(the requested tolerance is relative) and the solution linear in b. What an operand kind represents is read off its own _matmat (term grammar), so a new structural "
+            "rule (inv(TriangularInv), pinv(Kronecker), ...) is decided, not special-cased; pinv rules are compared with the Moore-Penrose algebra (distributes over Kronecker / block-diagonal, "
+            "not over products). Every iterative algorithm an Auto rule constructs must be configured from the Auto object's own options (wholesale, or field f from key f).",
             "Residual sizes, tolerances, conditioning and the numerical effect of the 10^6 threshold are not decided. Dispatch of every (kind, algorithm) pair is C04; densification is C19.", "4/C06"),
     "C09": ("term rewriting of the apply_unary / exp / log / pow / sqrt / isqrt rules; decision table of the Auto rule",
             "Decides the algebraic shape of every matrix-function rule: dense paths must be V f(D) V^-1 with V^-1 written as V^H only for the unitary eigenvectors of eigh; structural "
             "rules (Diagonal, BlockDiag with multiplicities, Identity, ScalarMul, Transpose, Adjoint, exp of a Kronecker sum, pow of a Kronecker product) must equal f of the operand "
             "kind's defining expression under the guard of each exit; a non-integer power may be distributed over a multiplicative decomposition (Kronecker factors, scalar x operator) "
-            "only under a positivity / integrality guard (refuted on this tree for pow(Kronecker): known finding); sqrt/isqrt must be pow with exponent +-1/2; the integer shortcuts of pow (0 -> I, 1..9 -> k-fold product, -1 -> inv with the algorithm map); "
+            "only under a positivity / integrality guard (refuted on this tree for pow(Kronecker): known finding); sqrt/isqrt must be pow with exponent +-1/2; the integer shortcuts of pow, judged exit by exit with the path conditions of each return (if / early return / match-case patterns and guards): an exit that "
+            "returns I / the k-fold product / inv(A) must be reached only when alpha is close to the integer k and k is 0 / >= 1 / -1 (with the algorithm map); "
             "f and alg are forwarded; Auto chooses Eigh/Lanczos only under a guard implying SelfAdjoint.",
             "The Krylov paths (LanczosUnary, ArnoldiUnary), branch choice and accuracy are not decided.", "4/C09"),
     "C11": ("term rewriting / structural comparison of the cholesky and plu rules",
@@ -90,8 +93,10 @@ CHECKS = {
     "C08": ("dominance / dependence / idiom checks over the diag and trace rules",
             "Decides the 'same values or refuses' clause structurally: rules whose formula only holds for the main diagonal (BlockDiag, Kronecker, KronSum) must refuse k != 0, the "
             "k-generic ones must let k reach the result; self-built off-diagonals have length n - |k|; recursive calls keep (k, alg); the outer-product idiom puts factor i on axis i "
-            "(row-major) with product for Kronecker and sum for KronSum; BlockDiag concatenates with multiplicities; trace = sum of diag(A, 0, alg) after a squareness check and product "
-            "of traces for Kronecker; the Exact/Hutch base case forwards (A, k); Auto constructs Exact on the small-tolerance branch; the blocked probing loop of exact_diag ranges over "
+            "(row-major) with product for Kronecker and sum for KronSum -- decided by interpreting the rule's own code over axis labels for 2, 3 and 4 factors (AXES: indexing "
+            "with None / slice / ..., broadcasting, folds, comprehensions; two factors meeting on one axis or a wrong axis order is a counterexample with that many factors); BlockDiag "
+            "concatenates with multiplicities; trace = sum of diag(A, 0, alg) after a squareness check; structural trace rules are compared with the kind's trace identity as scalar terms "
+            "(product of traces for Kronecker, sum for Sum, multiplicity-weighted sum for BlockDiag, size-weighted sum for KronSum, c*n for ScalarMul); Auto's options reach the estimator; the Exact/Hutch base case forwards (A, k); Auto constructs Exact on the small-tolerance branch; the blocked probing loop of exact_diag ranges over "
             "every column of the operator in steps of the block it hands to the chunk builder and reads the sign of the offset somewhere; the Auto rule's default tolerance is an "
             "operator-independent literal not looser than 1e-6.",
             "The chunk/shift arithmetic inside get_I_chunk_like (sizes not divisible by the block) and the numerical value of the Auto threshold are runtime quantities and "
@@ -101,7 +106,8 @@ CHECKS = {
             "unordered, x[argsort(x)]: algebraic, x[argsort(|x|)]: magnitude); values and vectors must be permuted by the same argsort index on the column axis (a Permutation operator "
             "or row index is the transposed permutation) and cut by the same slice; eigmax/eigmin call eig with k=1 and LM/SM; power iteration refuses other requests; Auto chooses "
             "Lanczos only under SelfAdjoint; the matrix handed to the backend eigh / eig is A itself (term equality, under H(A)=A for eigh); a triangular back-substitution helper "
-            "that reads one strict triangle only receives data of that orientation for every value of the operand's lower flag.",
+            "that reads one strict triangle only receives data of that orientation for every value of the operand's lower flag; the (complex) output of the general dense "
+            "eigen-decomposition is never converted to the operator's own dtype.",
             "That returned pairs satisfy A v = lambda v, convergence and linear independence are numerical and not decided.", "4/C10"),
     "C12": ("bounded-loop certificate (cap conjunct + counter monotonicity), def-use of the stopping tolerance and the scaling array, axis discipline of reductions, typestate of the iteration counter",
             "Decides the stopping contract and the structural part of the per-column claim: the loop condition is a conjunction containing k < max_iters with k from 0 by +1 per body; it "
@@ -116,7 +122,8 @@ CHECKS = {
             "Structural necessary conditions: at most min(max_iters, n) steps (clip + cond conjunct i <= max_iters with i from 1 by +1); T is Tridiagonal(a, b, a) with the same array in "
             "both off-diagonal slots and off-diagonal entries written as norms; the start vector is divided by its norm (not in place) and stored in column 1; the re-orthogonalisation "
             "coefficient conjugates the basis it is later multiplied with; lanczos_eigs sorts ascending and permutes values and vector columns by the same index; diagonal, off-diagonal "
-            "and Q are trimmed to N, N-1, N for one size N; the work buffers of init_lanczos are typed by the operator's dtype at every call site; every clip / maximum bound inside the "
+            "and Q are trimmed to N, N-1, N for one size N, and N counts the steps run (final loop counter minus its initial value; the loop runner's 'iterations' counts "
+            "condition evaluations, one more); the work buffers of init_lanczos are typed by the operator's dtype at every call site; every clip / maximum bound inside the "
             "factorisation loop has the degree of homogeneity (in the scale of A) of the quantity it guards; the loop condition folds to False at an exact breakdown.",
             "Orthonormality, the three-term recurrence, early termination and A Q - Q T are numerical and not decided.", "4/C14"),
     "C15": ("bounded-loop certificate, allocation check of the work buffers, sign provenance, dependence of the normalisation floor on the tolerance, projection convention",
@@ -139,8 +146,9 @@ CHECKS = {
             "base-class method exists on the base class, that Sliced derives rows from slices[0] and columns from slices[1], stores the caller's index objects unchanged, scatters into an "
             "(A.C, k) buffer whose dtype covers the operand and gathers by the other index (mirror image on the left), that duck-type guards test the attribute they protect, that every "
             "documented index form has an arm and the fall-through raises, that no slice(*s.indices(n)) round trip is used, and that every exit of Sliced._matmat/_rmatmat goes through the "
-            "scatter/gather pair (a size-guarded shortcut that multiplies the parent by the raw operand is refuted), that index objects of a Sliced are resolved against the parent's shape, and that "
-            "no __getitem__ compares two integer indices raw (negative aliases).",
+            "scatter/gather pair (a size-guarded shortcut that multiplies the parent by the raw operand is refuted) -- these Sliced obligations are judged on the VALUE the methods return "
+            "(SCATTER domain: gather(parent @ scatter(zeros(shape), X, idx), idx'), through helper methods and any naming) --, that index objects of a Sliced are resolved against the "
+            "parent's shape, that no __getitem__ compares two integer indices raw (negative aliases), and that an index of one axis is never reduced modulo / compared with the length of the other.",
             "Values for negative / strided / empty slices are delegated to the array library by construction: noted, not proved.", "4/C20"),
 }
 
